@@ -544,7 +544,7 @@ def run(tier, seed):
     judged = len(stats.sets.get("entity_names_judged", ()))
     if judged < len(names):
         errors.append("entity table not judged completely: %d of %d names" % (judged, len(names)))
-    extra = {"exhaustive": {"entity_table": judged == len(names), "respellings": False},
+    extra = {"exhaustive_parts": {"entity_table": judged == len(names), "respellings": False},
              "entity_table": {"names_in_src_entities_in": len(names), "names_judged": judged, "contexts": list(ENTITY_CONTEXTS),
                               "reference": "html.entities.html5 (Python %s)" % ".".join(map(str, __import__("sys").version_info[:3])),
                               "allowance": "the W3C-2007 spelling SPACE + combining mark is accepted for " + ", ".join(S.LEADING_SPACE_NAMES),
